@@ -764,6 +764,7 @@ func rulesTrieKeys(c *Ctx, r *Report) {
 	})
 	okRange := rg != nil && sy.expr(rg.X).String() == "load(P0.f0)"
 	okAppend := false
+	var otherAppends []string
 	if rg != nil {
 		instrs(f, func(in ssa.Instruction) {
 			cl, ok := in.(*ssa.Call)
@@ -773,17 +774,26 @@ func rulesTrieKeys(c *Ctx, r *Report) {
 			if b, ok := cl.Call.Value.(*ssa.Builtin); !ok || b.Name() != "append" {
 				return
 			}
+			if sl, ok := cl.Type().Underlying().(*types.Slice); !ok || !types.Identical(sl.Elem(), types.Typ[types.Byte]) {
+				return
+			}
+			isKey := false
 			for _, v := range orderedVarargs([]ssa.Value{cl.Call.Args[1]}) {
 				if ex, ok := v.(*ssa.Extract); ok && ex.Index == 1 {
 					if nx, ok := ex.Tuple.(*ssa.Next); ok && nx.Iter == ssa.Value(rg) {
 						// appended unconditionally in the loop body: the append's block is the block after the ok test
-						okAppend = true
+						okAppend, isKey = true, true
 					}
 				}
+			}
+			if !isKey {
+				otherAppends = append(otherAppends, c.pos(cl.Pos()))
 			}
 		})
 	}
 	r.check(okRange && okAppend, "KEYS-ALL", where, "every child key", c.pos(f.Pos()), "keys() ranges over the node's own map and appends the key of every iteration", "keys() does not enumerate the node's map with a range that appends every key: some children are never visited by ForEach")
+	r.check(len(otherAppends) == 0, "KEYS-ALL", where, "nothing but the map's keys", c.pos(f.Pos()), "every byte appended to the key list is the key of an iteration over the node's map: each child is listed once",
+		fmt.Sprintf("bytes are appended to the key list outside the range over the node's map (%v): a key can be listed twice, and ForEach then reports a member twice and skips another", otherAppends))
 	// ForEach: progress compared with len of the same node's map or of its key list
 	fe := c.fn("trie", "(*Trie).ForEach")
 	if fe == nil {
